@@ -3,6 +3,12 @@
 package f3
 
 import (
+	"context"
+
+	"github.com/filecoin-project/go-f3/certstore"
+	"github.com/filecoin-project/go-f3/ec"
+	"github.com/filecoin-project/go-f3/internal/clock"
+	"github.com/filecoin-project/go-f3/manifest"
 	"github.com/filecoin-project/go-f3/gpbft"
 	"github.com/filecoin-project/go-f3/internal/writeaheadlog"
 	"github.com/libp2p/go-libp2p/core/peer"
@@ -28,3 +34,16 @@ func VerifNewFilter(local string) *VerifFilter {
 }
 func (v *VerifFilter) ProcessBroadcast(m *gpbft.GMessage) bool { return v.f.ProcessBroadcast(m) }
 func (v *VerifFilter) ProcessReceive(p string, m *gpbft.GMessage) { v.f.ProcessReceive(peerID(p), m) }
+
+// consensus inputs
+type VerifInputs struct{ in gpbftInputs }
+
+func VerifNewInputs(m manifest.Manifest, cs *certstore.Store, backend ec.Backend, v gpbft.Verifier, clk clock.Clock) *VerifInputs {
+	return &VerifInputs{in: newInputs(m, cs, backend, v, clk)}
+}
+func (v *VerifInputs) GetProposal(ctx context.Context, instance uint64) (*gpbft.SupplementalData, *gpbft.ECChain, error) {
+	return v.in.GetProposal(ctx, instance)
+}
+func (v *VerifInputs) GetCommittee(ctx context.Context, instance uint64) (*gpbft.Committee, error) {
+	return v.in.GetCommittee(ctx, instance)
+}
